@@ -112,7 +112,7 @@ CLAIMED["C17"] = {
              "return, nil only when complete, error iff a failure, no goroutine left)."),
     "design_ref": "DESIGN.md 4/C17",
     "note": ("Trees of <= 5 segments, 1..8 workers; schedules are sampled (free-running) or shaped by gate policies, not enumerated on the "
-             "real code; the sequential traversal helpers of ops/ (paths, terminals, skip/limit) are NOT covered; the data race on "
+             "real code; the sequential traversal helpers of ops/ (TraversePaths, TraverseIntermediaryPaths, AcyclicTraverseNodes, AcyclicTraverseTerminals; skip / limit; both directions; branch query) run over a fake graph.Transaction on every graph of <= 3 nodes / 4 edges and are validated by TSeq (terminals only bounded); the bounded counter and the skip / limit filter are driven from 1..16 goroutines (TCounter, TSkipLimit); the data race on "
              "PathSegment.size under Descend is not part of the statement. Hooks: 5 add-only lines in traversal.go (commit b42568c)."),
     "technique": "TLA+ model checking (safety + liveness) of the termination protocol and the pipe, TLC-enumerated plans, gate-controlled and free-running executions of the real code validated against the P-spec by TLC",
 }
@@ -176,7 +176,7 @@ CLAIMED["C10"] = {
              "clauses; node and relationship queries) that are built, rendered, parsed and read back."),
     "design_ref": "DESIGN.md 4/C07+C10",
     "note": ("A literal catalogue (ints to the int64 limits, doubles needing 17 digits, bools, null, strings with quotes, backslashes, newlines, non-BMP runes) is rendered, parsed and "
-             "read back for type and value.  NOT covered: create / merge patterns, list / map literals, shortest-path builders; the Neo4j builder's deliberate "
+             "read back for type and value.  Create queries (which endpoints WHERE reads x what CREATE names x what is returned) are built with both builders - query/neo4j's text builder and query.Builder, whose model the PostgreSQL driver translates - and must parse, read only what they bind or create, and agree on the bindings (TC10C).  The rewrite the Neo4j driver applies to every text before sending it (reached through the verif-tagged export, commit b6cd9ef) is run on temporal texts, the corpora and the grammar corpus and must preserve the canonical re-emission apart from temporal wrappers (TC10R).  NOT covered: merge patterns, list / map literals, shortest-path builders; the Neo4j builder's deliberate "
              "rewrite of negated string predicates is excluded."),
     "technique": "TLA+ emit/parse/build model checked exhaustively over builder terms + the same terms replayed through the real builder, emitter and parser with TLC trace validation",
 }
@@ -218,8 +218,11 @@ CLAIMED["C03"] = {
              "table or a CTE in scope."),
     "design_ref": "DESIGN.md 4/C03",
     "note": ("Bare names are resolved leniently; SQL kept as text inside the tree (formatting literals, text arguments of the traversal harness functions) is opaque; column lists of "
-             "function calls in FROM and of SELECT * are unknown.  Eight known findings (updating clauses and expansions in query parts that are followed by another WITH, "
-             "UNWIND before updates, multi-variable DELETE, SET reading its own target); one member of the family was repaired (6c30bc9)."),
+             "function calls in FROM and of SELECT * are unknown.  Queries: the corpora plus the grammar corpus TLC generates in every run (ExprGen.tla: every expression production "
+             "alone and directly inside every hole of every other; WithGen.tla: every projection pipeline of up to two WITH clauses over a node, a relationship and a path; the clause "
+             "skeletons of ReadOnlyGate.tla).  Fifteen known-finding families (updating clauses and expansions in query parts followed by another WITH, UNWIND before updates, DELETE next "
+             "to another updating clause, SET reading its own target, path functions in ORDER BY / UNWIND, a relationship pattern used as a value, a conjunction as a projection item, "
+             "id(n) at the root of an argument); members of these families were repaired in 6c30bc9, cbb448e and cff5930."),
     "technique": "TLA+ name-resolution model validating the event stream linearised from the real translator's SQL syntax tree for every corpus query",
 }
 
